@@ -572,3 +572,56 @@ def _conditional(node, fn):
             return True
         t = getattr(t, "_parent", None)
     return False
+
+
+# ------------------------------------------------------------------------ I6
+def rule_I6(ctx):
+    """construct objects (adapters, subconstructs) are module-level singletons shared by every partition / volume / file that
+    is parsed: nothing they compute for one parse may be kept on the object.  No method other than __init__ of a construct
+    subclass stores into `self` (attribute store, augmented store, setattr, delattr, update of self.__dict__)."""
+    from ..core.layout import Layouts
+    L = Layouts(ctx)
+    n_cls = 0
+    for m, q, c in ctx.prog.all_classes():
+        base = L.construct_base(c)
+        if not base or base in ("Container", "ListContainer"):
+            continue
+        n_cls += 1
+        for st in c.body:
+            if not isinstance(st, (ast.FunctionDef, ast.AsyncFunctionDef)) or st.name == "__init__":
+                continue
+            if any(isinstance(d, ast.Name) and d.id in ("staticmethod", "classmethod") for d in st.decorator_list) or not st.args.args:
+                continue
+            me = st.args.args[0].arg
+            bad = []
+            for n in ast.walk(st):
+                tg = []
+                if isinstance(n, ast.Assign):
+                    tg = n.targets
+                elif isinstance(n, (ast.AugAssign, ast.AnnAssign)):
+                    tg = [n.target]
+                elif isinstance(n, ast.Delete):
+                    tg = n.targets
+                elif isinstance(n, (ast.For, ast.comprehension)):
+                    tg = [n.target]
+                elif isinstance(n, ast.withitem) and n.optional_vars is not None:
+                    tg = [n.optional_vars]
+                elif isinstance(n, ast.NamedExpr):
+                    tg = [n.target]
+                for t in tg:
+                    for x in ast.walk(t):
+                        if isinstance(x, ast.Attribute) and isinstance(x.value, ast.Name) and x.value.id == me and isinstance(x.ctx, (ast.Store, ast.Del)):
+                            bad.append(f"{me}.{x.attr}")
+                        # self.d[k] = v / self.x.y = v: state reachable from the shared object
+                        if isinstance(x, (ast.Subscript, ast.Attribute)) and isinstance(x.ctx, (ast.Store, ast.Del)) and isinstance(x.value, ast.Attribute) \
+                                and (dotted(x.value) or "").split(".")[0] == me:
+                            bad.append(norm(x))
+                if isinstance(n, ast.Call) and isinstance(n.func, ast.Name) and n.func.id in ("setattr", "delattr") and n.args and isinstance(n.args[0], ast.Name) and n.args[0].id == me:
+                    bad.append(f"{n.func.id}({me}, ...)")
+                if isinstance(n, ast.Call) and isinstance(n.func, ast.Attribute) and n.func.attr in ("update", "setdefault", "pop", "clear") and norm(n.func.value) in (f"{me}.__dict__", f"vars({me})"):
+                    bad.append(norm(n)[:40])
+            ok = not bad
+            ctx.ob("I6", st, "a shared construct object keeps nothing from one parse for the next (no store into self outside __init__)", ok,
+                   "" if ok else f"{q}.{st.name} stores {sorted(set(bad))}: the value computed for the first partition / volume parsed is reused for every later one",
+                   inst=f"{m.path}:{q}.{st.name}", file=m.path)
+    ctx.fact("I6", "construct classes", n_cls)
